@@ -18,6 +18,8 @@ pub struct Pivots {
     pub rows: bool,
     pub cond: u8, // 0 One, 1 AnyUnit, 2 Weight(1), 3 Weight(2)
     pub stored_zeros: bool,
+    /// entries range over 0..=b instead of -b..=b
+    pub nonneg: bool,
 }
 
 impl Pivots {
@@ -33,7 +35,7 @@ impl Pivots {
 
 impl Harness for Pivots {
     fn id(&self) -> String {
-        format!("pivots/{:?}/{}/{:?}/{}x{}/B{}{}", self.ring, if self.rows { "Rows" } else { "Cols" }, self.cond(), self.m, self.n, self.b, if self.stored_zeros { "/stored0" } else { "" })
+        format!("pivots/{:?}/{}/{:?}/{}x{}/{}B{}{}", self.ring, if self.rows { "Rows" } else { "Cols" }, self.cond(), self.m, self.n, if self.nonneg { "nonneg-" } else { "" }, self.b, if self.stored_zeros { "/stored0" } else { "" })
     }
     fn functions(&self) -> Vec<&'static str> {
         vec!["pivot::{find_pivots,perms_by_pivots}", "PivotFinder::{new,find_pivots,find_fl_pivots,find_fl_col_pivots,find_cycle_free_pivots(_m),result}", "MatrixStr::new / PivotCondition::is_cand",
@@ -41,7 +43,10 @@ impl Harness for Pivots {
     }
     fn inputs(&self) -> Vec<InputSpec> {
         let ar = if self.ring == RingSel::ZH { 2 } else { 1 };
-        (0..self.m * self.n * ar).map(|k| InputSpec::boxed(&format!("a{}{}{}", (k / ar) / self.n, (k / ar) % self.n, if ar == 1 { "" } else if k % 2 == 0 { "c" } else { "h" }), self.b)).collect()
+        (0..self.m * self.n * ar).map(|k| {
+            let name = format!("a{}{}{}", (k / ar) / self.n, (k / ar) % self.n, if ar == 1 { "" } else if k % 2 == 0 { "c" } else { "h" });
+            if self.nonneg { InputSpec::range(&name, 0, self.b) } else { InputSpec::boxed(&name, self.b) }
+        }).collect()
     }
     fn body<I: VInt>(&self, xs: &[I])
     where
@@ -124,28 +129,33 @@ pub fn configs(tier: crate::registry::Tier, _seed: u64) -> Vec<crate::registry::
                 if cond >= 1 && (m, n) == (3, 3) {
                     continue;
                 }
-                v.push(entry(Pivots { ring: RingSel::Z, m, n, b, rows, cond, stored_zeros: false }, 10000, 90.0));
+                v.push(entry(Pivots { ring: RingSel::Z, m, n, b, rows, cond, stored_zeros: false, nonneg: false }, 10000, 90.0));
             }
         }
-        v.push(entry(Pivots { ring: RingSel::Z, m: 2, n: 2, b: 1, rows, cond: 0, stored_zeros: true }, 500, 30.0));
-        v.push(entry(Pivots { ring: RingSel::Z, m: 1, n: 3, b: 2, rows, cond: 1, stored_zeros: false }, 500, 30.0));
-        v.push(entry(Pivots { ring: RingSel::Z, m: 0, n: 2, b: 1, rows, cond: 0, stored_zeros: false }, 5, 5.0));
+        v.push(entry(Pivots { ring: RingSel::Z, m: 2, n: 2, b: 1, rows, cond: 0, stored_zeros: true, nonneg: false }, 500, 30.0));
+        v.push(entry(Pivots { ring: RingSel::Z, m: 1, n: 3, b: 2, rows, cond: 1, stored_zeros: false, nonneg: false }, 500, 30.0));
+        // 3x3 with entries in {0,1,2}: unit / non-unit / zero patterns of a full 3x3 matrix
+        v.push(entry(Pivots { ring: RingSel::Z, m: 3, n: 3, b: 2, rows, cond: 0, stored_zeros: false, nonneg: true }, 25000, 150.0));
+        // wider box on a 2x3 / 3x2 shape: several distinct non-unit values in one row
+        v.push(entry(Pivots { ring: RingSel::Z, m: 2, n: 3, b: 3, rows, cond: 0, stored_zeros: false, nonneg: false }, 20000, 120.0));
+        v.push(entry(Pivots { ring: RingSel::Z, m: 3, n: 2, b: 3, rows, cond: 0, stored_zeros: false, nonneg: false }, 20000, 120.0));
+        v.push(entry(Pivots { ring: RingSel::Z, m: 0, n: 2, b: 1, rows, cond: 0, stored_zeros: false, nonneg: false }, 5, 5.0));
     }
     // rings with other unit groups: Q (every non-zero entry is a unit) and Z[H] (non-PID, units +-1, default c_weight)
     for ring in [RingSel::Q, RingSel::ZH] {
         for rows in [true, false] {
             for cond in 0..4u8 {
-                v.push(entry(Pivots { ring, m: 2, n: 2, b: if ring == RingSel::ZH { 1 } else { 2 }, rows, cond, stored_zeros: false }, 1500, 90.0));
+                v.push(entry(Pivots { ring, m: 2, n: 2, b: if ring == RingSel::ZH { 1 } else { 2 }, rows, cond, stored_zeros: false, nonneg: false }, 1500, 90.0));
             }
-            v.push(entry(Pivots { ring, m: 2, n: 3, b: 1, rows, cond: 1, stored_zeros: false }, 1500, 90.0));
+            v.push(entry(Pivots { ring, m: 2, n: 3, b: 1, rows, cond: 1, stored_zeros: false, nonneg: false }, 1500, 90.0));
         }
     }
     if tier == Tier::Thorough {
         for rows in [true, false] {
             for cond in [0u8, 3] {
-                v.push(entry(Pivots { ring: RingSel::Z, m: 3, n: 4, b: 1, rows, cond, stored_zeros: false }, 100000, 1800.0));
-                v.push(entry(Pivots { ring: RingSel::Z, m: 4, n: 3, b: 1, rows, cond, stored_zeros: false }, 100000, 1800.0));
-                v.push(entry(Pivots { ring: RingSel::Z, m: 3, n: 3, b: 2, rows, cond, stored_zeros: false }, 100000, 1800.0));
+                v.push(entry(Pivots { ring: RingSel::Z, m: 3, n: 4, b: 1, rows, cond, stored_zeros: false, nonneg: false }, 100000, 1800.0));
+                v.push(entry(Pivots { ring: RingSel::Z, m: 4, n: 3, b: 1, rows, cond, stored_zeros: false, nonneg: false }, 100000, 1800.0));
+                v.push(entry(Pivots { ring: RingSel::Z, m: 3, n: 3, b: 2, rows, cond, stored_zeros: false, nonneg: false }, 100000, 1800.0));
             }
         }
     }
